@@ -7,7 +7,8 @@
    hsids = schedulings pending in the heap, psids = popped and called by run(), removed = dropped by removeEvent. *)
 From Coq Require Import List NArith ZArith Permutation.
 Import ListNotations.
-Require Import Base.Wire Base.PyStr C18.Model C18.Lemmas C18.Theorems C18.Periodic C18.Trace C18.Bag C18.BagComplete.
+Require Import Base.Wire Base.PyStr C18.Model C18.Lemmas C18.Theorems C18.Periodic C18.Trace C18.Bag C18.BagComplete C18.PModel.
+Require C18.PProofs.
 
 (* exactly once / removed never run: at every point of every history each scheduling is in exactly one of
    pending, executed, removed (so: never executed twice, never executed after removal, never lost). *)
@@ -220,3 +221,33 @@ Theorem C18_bag_periodic_count :
     exists u p' nm' av' c, snd x = Wrap u p' nm' av' (Some c) /\ (bnc r b' + cap c = cap n)%Z.
 Proof. exact bag_periodic_count_trace. Qed.
 Print Assumptions C18_bag_periodic_count.
+
+(* ===== the Scheduler plugin on top (PModel.v mirrors plugins/Scheduler/plugin.py: _add, _repeat, remove, die/pickle,
+   _restoreEvents with its `except AssertionError`, the closures' `del self.events[...]`; PProofs.v).
+   [prun_ops ops pinit]: the state after a history of scheduler add / remind / repeat / remove commands, clock advances,
+   run(), in-process reloads of the plugin and restarts of the bot. ===== *)
+
+(* no user request ever has two schedule entries (so one firing of the schedule runs it once), and no name is scheduled
+   twice -- in particular a reload with pending events does not schedule them again: _restoreEvents passes the old id and
+   addEvent refuses it (regenerated table: RESTORE_PASSES_ID) *)
+Theorem C18_plugin_scheduled_once :
+  forall ops, let s := prun_ops ops pinit in NoDup (map s_cmd (p_sched s)) /\ NoDup (map s_name (p_sched s)).
+Proof. exact C18.PProofs.plugin_scheduled_once. Qed.
+Print Assumptions C18_plugin_scheduled_once.
+
+(* the id under which `scheduler list` shows a request is the name of its schedule entry: `scheduler remove <id>` removes it *)
+Theorem C18_plugin_listed_id :
+  forall ops e kv, let s := prun_ops ops pinit in
+  In e (p_sched s) -> In kv (p_dict s) -> pcmd (snd kv) = s_cmd e -> fst kv = s_name e.
+Proof. exact C18.PProofs.plugin_listed_id. Qed.
+Print Assumptions C18_plugin_listed_id.
+
+(* Full statement of "a one-shot request runs at most once":  forall ops c, count_occ (map snd (p_log s)) c <= 1 for one-shot c.
+   The pinned plugin violates it (finding C18.F24): after a reload the event fires through the closure of the dead
+   instance, which deletes it from the dead instance's dict only; the next reload (or restart) schedules it again.
+   Proved here: the refuting witness.  (The domain theorem -- histories without reload -- is not proved; the direct
+   oracle of the harness judges every generated history on the implementation.) *)
+Theorem C18_plugin_once_refuted :
+  exists ops c, count_occ N.eq_dec (map snd (p_log (prun_ops ops pinit))) c = 2%nat.
+Proof. exists [QAdd 2; QReload; QAdvance 3; QRun; QReload; QAdvance 1; QRun], 0%N. vm_compute. reflexivity. Qed.
+Print Assumptions C18_plugin_once_refuted.
